@@ -56,3 +56,14 @@ fn canary__must_fail() {
     let r = c.push(Layer::Map).unwrap();
     assert!(r.layers == c.layers, "CANARY: push(Map) never changes the layer bits");
 }
+
+/// A symbolic scalar `LhsValue` (Int / Bool / Ip v4 / Ip v6 / borrowed 2-byte Bytes).
+pub(crate) fn any_scalar_value(bytes: &'static [u8; 2]) -> LhsValue<'static> {
+    match kani::any::<u8>() % 5 {
+        0 => LhsValue::Int(kani::any()),
+        1 => LhsValue::Bool(kani::any()),
+        2 => LhsValue::Ip(IpAddr::V4(Ipv4Addr::from(kani::any::<u32>()))),
+        3 => LhsValue::Ip(IpAddr::V6(Ipv6Addr::from(kani::any::<u128>()))),
+        _ => LhsValue::Bytes(Bytes::Borrowed(&bytes[..])),
+    }
+}
